@@ -549,7 +549,20 @@ func (vc *VC) stepField(x *Val, i int, env *Env) *Val {
 			return v
 		}
 		h := vc.getIn(env.st, hn, hs)
-		return &Val{T: fmt.Sprintf("(select %s %s)", h, x.T), Ty: f.Type(), Loc: l}
+		vc.heapRangeAxiom(h, f.Type())
+		term := fmt.Sprintf("(select %s %s)", h, x.T)
+		if !strings.Contains(x.T, "q_") {
+			// a ground read: state the typing facts of this very term
+			key := "rangeof:" + term
+			if !vc.declared[key] {
+				if rf := vc.rangeFact(term, f.Type()); rf != "" {
+					vc.declared[key] = true
+					vc.declLog = append(vc.declLog, key)
+					vc.emit("(assert %s)", rf)
+				}
+			}
+		}
+		return &Val{T: term, Ty: f.Type(), Loc: l}
 	case *types.Struct:
 		f := u.Field(i)
 		v := &Val{T: fmt.Sprintf("(%s %s)", vc.accessor(x.Ty, f.Name()), x.T), Ty: f.Type()}
@@ -666,6 +679,16 @@ func (vc *VC) evalCall(e *SExpr, env *Env) *Val {
 		case "off":
 			x := vc.eval(args[0], env)
 			return &Val{T: fmt.Sprintf("(s_off %s)", x.T), Ty: MathInt}
+		case "raw":
+			// raw(s, j): element j (absolute index) of the backing array of slice s
+			x := vc.eval(args[0], env)
+			j := vc.eval(args[1], env)
+			st, ok := x.Ty.Underlying().(*types.Slice)
+			if !ok {
+				vc.evalFail(env, "raw() needs a slice")
+			}
+			hn, hs := vc.elemHeap(st.Elem())
+			return &Val{T: fmt.Sprintf("(select (select %s (s_arr %s)) %s)", vc.getIn(env.st, hn, hs), x.T, j.T), Ty: st.Elem()}
 		case "has":
 			m := vc.eval(args[0], env)
 			k := vc.eval(args[1], env)
@@ -950,4 +973,51 @@ func (vc *VC) flushAxioms() {
 			}()
 		}
 	}
+}
+
+// heapRangeAxiom states once per heap version that every cell holds a value of
+// its Go type (entry heaps by typing, later versions because stores write
+// wrapped values and havocs are typed).
+func (vc *VC) heapRangeAxiom(h string, t types.Type) {
+	key := "rangeax:" + h
+	if vc.declared[key] {
+		return
+	}
+	if _, _, isInt := intRange(t); !isInt {
+		return
+	}
+	rf := vc.rangeFact(fmt.Sprintf("(select %s r)", h), t)
+	if rf == "" {
+		return
+	}
+	vc.declared[key] = true
+	vc.declLog = append(vc.declLog, key)
+	vc.emit("(assert (forall ((r Int)) (! %s :pattern ((select %s r)))))", rf, h)
+}
+
+// conjuncts splits a clause at its top-level && into separate clauses, so
+// that each conjunct becomes its own (smaller) obligation.
+func conjuncts(cl *Clause) []*Clause {
+	var out []*Clause
+	var walk func(e *SExpr)
+	walk = func(e *SExpr) {
+		if e.Op == "binop" && e.Name == "&&" {
+			walk(e.Args[0])
+			walk(e.Args[1])
+			return
+		}
+		out = append(out, &Clause{Label: cl.Label, Expr: e, Src: e.String(), File: cl.File, Line: cl.Line})
+	}
+	walk(cl.Expr)
+	if len(out) == 1 {
+		return []*Clause{cl}
+	}
+	for i, c := range out {
+		if c.Label != "" {
+			c.Label = fmt.Sprintf("%s.%d", cl.Label, i+1)
+		} else {
+			c.Label = fmt.Sprintf("c%d", i+1)
+		}
+	}
+	return out
 }
